@@ -203,8 +203,16 @@ def one(mon: Monitor, rng: random.Random) -> None:
     if dst_nodata is not None:
         mon.obs[f"explicit_dst_nodata={dst_nodata}|src_nodata={'given' if nodata is not None else 'none'}|{'float' if np.dtype(dtype).kind == 'f' else 'int'}"] += 1
     if not cross and resampling == "nearest":
-        if exact_grid and kind.split("|")[1] in ("shift", "contained", "partial", "touch", "far", "mirror", "scale", "chunk-aligned"):
+        if exact_grid and kind.split("|")[1] in ("shift", "contained", "partial", "touch", "far", "mirror", "scale", "chunk-aligned", "unit-grid-at-origin"):
             cmp_mask = np.ones((ny, nx), dtype=bool)
+            sa_ = gen.aff6(src.affine)
+            if abs(sa_[0]) == 1 and abs(sa_[4]) == 1 and sa_[1] == 0 and sa_[3] == 0 and float(sa_[2]).is_integer() and float(sa_[5]).is_integer():
+                # a source with unit pixels and whole-number corners may contain a block whose own geotransform is (0, 1, 0, 0, 0, +-1) - the one GDAL takes for "not
+                # georeferenced"; the library presents that block to GDAL in an equivalent form (D35), which resolves exact ties (a destination centre exactly on a
+                # source pixel edge or on the source's outer edge) the other way round than the plain form does.  Either neighbour is a nearest neighbour: not judged
+                fx, fy = np.abs(px - np.round(px)), np.abs(py - np.round(py))
+                cmp_mask = fin & (fx > 1e-6) & (fy > 1e-6)
+                mon.obs["exact_ties_on_unit_pixel_sources_not_judged"] += int((~cmp_mask).sum())
         else:
             fx, fy = np.abs(px - np.round(px)), np.abs(py - np.round(py))
             cmp_mask = fin & (fx > 0.02) & (fy > 0.02)
